@@ -93,14 +93,18 @@ class SliceInner:
 def _slice_inner(slize: Slice) -> SliceInner:
     """Calculate the inner resolved fields for `slize`"""
 
+    from .elab.helpers.width import width as width_of
+
     parent = slize.parent
     index = slize.index
+    # Note `parent` may be a reference, which has no `width` attribute of its own
+    parent_width = width_of(parent)
 
     if isinstance(index, int):
-        if index >= parent.width:
+        if index >= parent_width or index < -parent_width:
             raise ValueError(f"Out-of-bounds index {index} into {parent}")
         if index < 0:
-            index += parent.width
+            index += parent_width
         return SliceInner(top=index + 1, bot=index, step=1, width=1)
 
     if isinstance(index, slice):
@@ -110,43 +114,20 @@ def _slice_inner(slize: Slice) -> SliceInner:
         stop = slice.__getattribute__(index, "stop")
         step = slice.__getattribute__(index, "step")
 
-        step = 1 if step is None else step
         if step == 0:
             raise ValueError(f"slice step cannot be zero")
-        elif step < 0:
-            # Here `top` gets a "+1" since `start` is *inclusive*, while `bot` gets "+1" as `stop` is *exclusive*.
-            top = (
-                parent.width
-                if start is None
-                else start + 1
-                if start >= 0
-                else parent.width + start + 1
-            )
-            bot = (
-                0
-                if stop is None
-                else stop + 1
-                if stop >= 0
-                else parent.width + stop + 1
-            )
-            # Align bot with the step
-            bot += (top - bot) % abs(step)
+        # Select what Python would select from a sequence of length `parent_width`,
+        # including its clamping of out-of-range bounds.
+        selected = range(*slice(start, stop, step).indices(parent_width))
+        width = len(selected)
+        if width < 1:
+            raise ValueError(f"Empty slice {index} into {parent}")
+        step = selected.step
+        # `bot` is the lowest selected index, (inclusive), `top` the highest, plus one (exclusive).
+        if step < 0:
+            top, bot = selected[0] + 1, selected[-1]
         else:
-            # Here `start` and `stop` match `top` and `bot`'s inclusive/exclusivity.
-            # No need to add any offsets.
-            top = (
-                parent.width
-                if stop is None
-                else stop
-                if stop >= 0
-                else parent.width + stop
-            )
-            bot = 0 if start is None else start if start >= 0 else parent.width + start
-            # Align top with the step
-            top -= (top - bot) % step
-
-        width = (top - bot) // step
-
+            top, bot = selected[-1] + 1, selected[0]
         # Create and return our Slice. More checks are done in its constructor.
         return SliceInner(top=top, bot=bot, step=step, width=width)
 
